@@ -349,6 +349,6 @@ class Checker:
 DEFAULT_USER_FNS = {
     "$eq": lambda c, args: all(x == c for x in args),
     "$eq_type": lambda c, args: all(
-        Component.get_type(x) == Component.get_type(c) for x in args
+        x is not None and Component.get_type(x) == Component.get_type(c) for x in args
     ),
 }
